@@ -85,7 +85,11 @@ def cli_encoding_case(k, N, mode):
     import corr_pq
     from lib_guesser.honeyword_session import HoneywordSession
     spec = ENC_SPECS[k]
-    name = f"c16enc{k}"
+    # the ruleset is asked for by its exact name; next to it stands another ruleset whose name differs in capitalisation only
+    # and whose language is disjoint (Rules/ is a directory of a case-sensitive file system)
+    name = f"C16Enc{k}"
+    common.install_ruleset({'terminals': {'D3': [['777', '0.5'], ['778', '0.5']]}, 'grammar': [['D3', '1.0']], 'omen_prob': [], 'prince': [],
+                            'mode': 'dyadic', 'encoding': 'utf-8', 'uuid': '00000000-0000-0000-0000-0000000000c6'}, name.lower())
     d = common.install_ruleset(spec, name)
     common.use_impl()
     pcfg = common.load_grammar(d)
